@@ -38,7 +38,33 @@ func init() {
 			}
 		}
 		gen(nil, 0)
-		ins = append(ins, lzInputs(c, c.Budget(20000, 200000), c.Budget(140, 900))...)
+		// chunk independence on the real code for every short string over {a,b,' '} up to length 7 (oracle only):
+		// one Write per byte vs a single Write
+		{
+			var all [][]byte
+			var g2 func(prefix []byte, l int)
+			g2 = func(prefix []byte, l int) {
+				all = append(all, append([]byte{}, prefix...))
+				if l == 7 {
+					return
+				}
+				for _, a := range alpha {
+					g2(append(prefix, a), l+1)
+				}
+			}
+			g2(nil, 0)
+			ones := []int{1, 1, 1, 1, 1, 1, 1, 1}
+			for _, in := range all {
+				_, single := implLzw(false, in, nil, false)
+				_, split := implLzw(false, in, ones, false)
+				if !bytes.Equal(single, split) {
+					c.Violate("C06:chunk-dependent:exhaustive-short", "compressed bytes depend on how the writes were split", map[string]interface{}{"input_hex": hx(in), "write_cuts": ones})
+					break
+				}
+			}
+			c.Res.Distribution["chunk-independence-oracle:exhaustive<=7"] = len(all)
+		}
+		ins = append(ins, lzInputs(c, c.Budget(20000, 200000), c.Budget(170, 900))...)
 		for name, b := range testdataFiles() {
 			if bytes.HasSuffix([]byte(name), []byte(".lzh")) {
 				continue
